@@ -9,4 +9,5 @@ MUTANTS = [
     ("array-count-off", "secsgem/secs/variables/array.py", "result = self.encode_item_header(len(self.data))", "result = self.encode_item_header(len(self.data) & 0xFFFF)"),
     ("text-decode-len", "secsgem/secs/variables/base_text.py", "result = data[text_pos : text_pos + length].decode(self.coding)", "result = data[text_pos : text_pos + (length & 0xFFFF)].decode(self.coding)"),
     ("u8-max", "secsgem/secs/variables/u8.py", "_max = 18446744073709551615", "_max = 9223372036854775807"),
+    ("revert-dynamic-count-check-of-wrapped-values", "secsgem/secs/variables/dynamic.py", "                self._check_count(value)\n\n                self.value = value\n", "                self.value = value\n"),
 ]
